@@ -25,6 +25,8 @@ func main() {
 		all    = flag.Bool("all", false, "run every registered property (quick), one load")
 		dump   = flag.Bool("dump", false, "print every obligation")
 		mutant = flag.String("mutant", "", "internal: run one self-test mutant (thorough tier)")
+		genAnc = flag.Bool("genanchors", false, "maintenance: print anchors.go (the function inventory of -repo) to stdout")
+		showIn = flag.Bool("shownorm", false, "print the normalised (inlined) sources and the inliner log")
 	)
 	flag.Parse()
 	if *verif == "" {
@@ -53,6 +55,14 @@ func main() {
 				fmt.Printf("  %-9s floor %-3d %s\n", r.ID, r.Floor, r.Title)
 			}
 		}
+		return
+	}
+	if *genAnc {
+		genAnchors(*repo)
+		return
+	}
+	if *showIn {
+		showNormalised(*repo)
 		return
 	}
 	if *replay != "" {
@@ -89,6 +99,10 @@ func main() {
 			"functions_analysed": len(P.Funcs),
 			"callgraph_nodes":    len(P.CG().Nodes),
 			"load_s":             loadTime,
+		}
+		if len(P.NormLog) > 0 {
+			// helpers unknown to the rules were inlined into their callers first
+			extra["normalising_inliner"] = P.NormLog
 		}
 		if *tier == "thorough" {
 			for k, v := range thorough(*repo, *verif, prop, &res, known) {
